@@ -92,6 +92,8 @@ pub struct ActorDecl {
     pub aux_work: u64,
     pub tick_work: u64,
     pub aux_yield: bool,
+    /// stream-attached actors: the n-th stream item's handler (1-based) calls `ctx.stop()`
+    pub item_stop_at: Option<u32>,
     /// clients that get an `Addr` clone at setup
     pub holders: Vec<u16>,
     /// client that gets the `OwningAddr` (owning entries)
@@ -118,6 +120,7 @@ impl ActorDecl {
             aux_work: 0,
             tick_work: 0,
             aux_yield: false,
+            item_stop_at: None,
             holders: vec![0],
             owner: 0,
             at_setup: true,
